@@ -17,7 +17,7 @@ from lsfsim.runner import run_scenario
 from monitors.basic import NotifyMonitor
 
 PROP = "C01"
-FAMILY_MIX = ["sequential"] * 3 + ["fanout_ok"] * 3 + ["general"] * 3 + ["retry"]
+FAMILY_MIX = ["sequential"] * 3 + ["fanout_ok"] * 3 + ["general"] * 3 + ["retry"] + ["fanout_caught"] * 2
 
 PROBES = {
     # name -> (definition, input, script)
@@ -69,6 +69,8 @@ def check_scenario(scn, seed, family="replay", rng=None):
         probes["outcome:" + mo.status] = 1
         if mo.flags.tie:
             probes["order-dependent"] = 1
+        if mo.flags.fanout_handled:
+            probes["fanout-failure-caught-by-its-Map/Parallel"] = 1
         if diff:
             findings.append(E.finding(PROP, "outcome-mismatch", diff, None, scn, seed))
         elif res.sim.errors:
